@@ -390,14 +390,18 @@ func C17(p *an.Prog, r *an.Report) {
 		}
 		sel := func(ev *an.PEval, v ssa.Value, args []an.AV) bool {
 			c, ok := v.(*ssa.Call)
-			if !ok || c.Parent() != fn {
+			if !ok || (c.Parent() != fn && an.FnPkgPath(c.Parent()) != an.FnPkgPath(fn)) {
 				return false
 			}
 			bi, ok := c.Call.Value.(*ssa.Builtin)
 			return ok && bi.Name() == "len" && c.Call.Args[0].Type().String() == "[]byte"
 		}
 		nonneg := an.IvRange(0, an.PosInf)
-		ev := &an.PEval{P: p, Domain: nonneg, Select: sel, LoopOK: true, Inline: func(*ssa.Function) bool { return false }}
+		// the length gate may sit in an unexported helper of the same package
+		sameStruct := func(f *ssa.Function) bool {
+			return an.FnPkgPath(f) == an.FnPkgPath(fn) && f.Object() != nil && !f.Object().Exported() && f.Signature.Recv() == nil && len(f.Blocks) > 0
+		}
+		ev := &an.PEval{P: p, Domain: nonneg, Select: sel, LoopOK: true, Inline: sameStruct}
 		outs, err := ev.Run(fn, rootArgs(fn))
 		if err != nil {
 			r.Ob("C17.N4", name, p.FnPos(fn), an.Undecided, err.Error())
